@@ -1,5 +1,5 @@
 #!/usr/bin/env python3
-"""tools/seed_eval.py <worktree> <ID> [--tier quick|thorough] [--no-demo]
+"""tools/seed_eval.py <worktree> <ID> [--tier quick|thorough] [--no-demo] [--suffix b]
 
 Evaluates one seeded defect produced by an independent sub-agent in <worktree>/_seed/<ID>/:
   1. applies patch.diff to a clean worktree, runs the unedited tests of every touched crate,
@@ -19,6 +19,7 @@ def main():
     tier = 'quick'
     if '--tier' in sys.argv: tier = sys.argv[sys.argv.index('--tier') + 1]
     do_demo = '--no-demo' not in sys.argv
+    suffix = sys.argv[sys.argv.index('--suffix') + 1] if '--suffix' in sys.argv else ''   # second-round seeds: /verif/seeded/<ID><suffix>/
     sd = f'{wt}/_seed/{cid}'
     patch = f'{sd}/patch.diff'
     assert os.path.exists(patch), patch
@@ -69,7 +70,7 @@ def main():
         rc_wo, out_wo = sh(f'bash {sd}/run.sh', cwd=wt, env={'CARGO_TARGET_DIR': f'{wt}/target'}, timeout=2400)
         meta['demo_without_change'] = {'exit': rc_wo, 'tail': out_wo[-800:]}
         sh('git checkout -- . && git clean -fdq -e _seed -e target -e th -e out', cwd=wt)
-    dst = f'/verif/seeded/{cid}'
+    dst = f'/verif/seeded/{cid}{suffix}'
     os.makedirs(dst, exist_ok=True)
     for f in os.listdir(sd):
         if os.path.isfile(f'{sd}/{f}') and os.path.getsize(f'{sd}/{f}') < 400_000:
